@@ -6,7 +6,7 @@ by step with the sequential reference mc.syncmodel.RefSem."""
 from mc.core import Check
 from mc import syncmodel
 
-OPS = [("acq", None), ("acq", "td"), ("acq", "abs"), ("rel",), ("cancel", 0), ("cancel", 1),
+OPS = [("acq", None), ("acq", "td"), ("acq", "abs"), ("acq", "zero"), ("rel",), ("cancel", 0), ("cancel", 1),
        ("cancel", -1), ("adv",)]
 SPECS = [("sem", 0), ("sem", 1), ("sem", 2), ("bsem", 1), ("bsem", 2), ("lock",)]
 
